@@ -559,16 +559,25 @@ structure Touched where
   removed : List Nat
 deriving Repr
 
-/-- atoms a modification names in its target residue (residue id, and residue name when the selection
-gives one), read off the specification molecule -/
-def modNamedAtoms (ff : FF) (spec : Mol) (targets : List ModTarget) : List Nat :=
+/-- Atoms a selected modification names in its target residue, read off the specification molecule: the
+residue with the selected id — if it is one the modification is applicable to (a protein residue name of the
+repository's own list; the residue name of the selection, when it gives one) — and in it the atoms whose
+name the modification lists.  The name of an atom is the one it has when modifications are applied, i.e.
+after the links (`renames`: atom names written by applied links). -/
+def modNamedAtoms (protein : List String) (ff : FF) (spec : Mol) (renames : List (Nat × String))
+    (targets : List ModTarget) : List Nat :=
   targets.flatMap fun t =>
     match ff.mod? t.modName with
     | none => []
     | some md =>
       (spec.atoms.filter fun a => a.resid == t.resid &&
+        (match attrGet? a.attrs "resname" with | some rn => protein.contains rn | none => false) &&
         (match t.resname with | some rn => attrGet? a.attrs "resname" == some rn | none => true) &&
-        (match attrGet? a.attrs "atomname" with | some nm => md.atoms.any (·.1 == nm) | none => false)).map (·.node)
+        (match (match (renames.filter (·.1 == a.node)).getLast? with
+                | some r => some r.2
+                | none => attrGet? a.attrs "atomname") with
+         | some nm => md.atoms.any (·.1 == nm)
+         | none => false)).map (·.node)
 
 /-- The frame part of C01 on the final molecule: every atom that no link removed is there and equals the
 specification except attributes a link replaced or atoms a modification names in its target residue;
